@@ -86,9 +86,8 @@ def decodeUtf8 : List UInt8 → Option (List Nat)
       | _ => none
     else none
 
-/-- Cells a text occupies: one per width-1 glyph, glyph + `0` for a wide one, nothing for a combining one. -/
-def textCells (cps : List Nat) : List Nat :=
-  cps.flatMap fun cp => match width cp with | 0 => [] | 1 => [cp] | _ => [cp, 0]
+/-- Cells a text occupies (shared with the theorem `print_utf8_effect`). -/
+def textCells (cps : List Nat) : List Nat := Spec.textCells cps
 
 def printable (cp : Nat) : Bool := cp ≥ 0x20 ∧ cp ≠ 0x7f ∧ ¬ (0x80 ≤ cp ∧ cp ≤ 0x9f)
 
